@@ -153,13 +153,17 @@ namespace l2cap {
 
         if ( code == connection_parameter_update_response_code && pending_status_ == transmitted )
         {
+            out_size = 0;
+
+            // a response with an identifier that does not match the pending request is silently discarded
+            if ( in_size < 2 || input[ 1 ] != identifier_ )
+                return;
+
             pending_status_ = idle;
             identifier_ = static_cast< std::uint8_t >( identifier_ + 1 );
 
             if ( identifier_ == invalid_identifier )
                 identifier_ = static_cast< std::uint8_t >( identifier_ + 1 );
-
-            out_size = 0;
         }
         else
         {
